@@ -55,10 +55,10 @@ def main():
     for pid in sorted(reg):
         ts = reg[pid]
         full = [t["name"].replace("Prtpy.", "") for t in ts if t["kind"] == "full"]
-        part = [(t["name"].replace("Prtpy.", ""), t.get("missing", "")) for t in ts if t["kind"] != "full"]
+        part = [(t["kind"], t["name"].replace("Prtpy.", ""), t.get("missing", "")) for t in ts if t["kind"] != "full"]
         out.append(f"* **{pid}** ({len(ts)} theorems): " + ", ".join(f"`{n}`" for n in full))
-        for n, m in part:
-            out.append(f"  * partial `{n}` — {m}")
+        for kd, n, m in part:
+            out.append(f"  * {kd} `{n}` — {m}")
     txt = "\n".join(out) + "\n"
     p = os.path.join(VERIF, "DESIGN.md")
     s = open(p).read()
